@@ -280,6 +280,12 @@ def corpus():
                    [("inst", "i4", "i2_n")], [("inst", "i4", "nc1")], [("sig", "s3", "i1_p"), ("sig", "s2", "i1_p_")],
                    [("sig", "s3", "i5_0")], [("inst", "i4", "i5_1")], [("sig", "s2", "i5_0"), ("inst", "i4", "i5_0_")]):
         out.append((base, script, None))
+    # two instance arrays, one called like an element of the other — declared before it (arrays are flattened last-declared-first, so the
+    # element is named while the other array is still waiting) and after it (seeds C05-r5-1, C05-r8-2: all array names released up front)
+    base2 = copy.deepcopy(base)
+    next(i for i in base2["modules"][-1]["insts"] if i["n"] == "i4")["array"] = 3
+    for script in ([("inst", "i4", "i5_0")], [("inst", "i4", "i5_1")], [("inst", "i5", "i4_2")], [("inst", "i4", "i5_0"), ("sig", "s2", "i5_0_0")]):
+        out.append((base2, script, None))
     # the same with names as designers write them: capitals (`Drv.Y` next to `Drv_Y`), and no-connect names that are not identifiers
     for script in ([("inst", "i1", "Drv"), ("sig", "s3", "Drv_p")], [("inst", "i1", "Drv"), ("inst", "i4", "Drv_p")], [("inst", "i2", "Rcv"), ("sig", "s3", "Rcv_n")],
                    [("inst", "i2", "Rcv"), ("inst", "i4", "Rcv_n")], [("noconn", "nc1", "Nc"), ("sig", "s3", "Nc")], [("noconn", "nc1", "NC_1"), ("inst", "i4", "NC_1")],
